@@ -200,6 +200,8 @@ pub fn evaluate_with(case: &SynthCase, extra: u64) -> Outcome {
     if case.family == "ram" {
         classes.push(if m.ram_blocks.is_empty() { "ram:not_inferred".into() } else { "ram:inferred".to_string() });
     }
+    classes.sort();
+    classes.dedup();
     let sample = format!("{}// options: {}", case.text, case.options_json());
     Outcome::pass(hash_str(&sample), nontrivial(m), classes, sample)
 }
@@ -231,7 +233,7 @@ pub fn run(ctx: &Ctx) {
         std::process::exit(2);
     }
     ctx.run_payloads("recorded", |p| crate::c19::recorded_on_own_thread(p, replay_recorded));
-    let n = std::env::var("C20_CASES").ok().and_then(|s| s.parse::<usize>().ok()).unwrap_or(ctx.scale(400, 30_000));
+    let n = std::env::var("C20_CASES").ok().and_then(|s| s.parse::<usize>().ok()).unwrap_or(ctx.scale(1200, 30_000));
     ctx.run("cases", CaseCfg::cases(n).choices(60_000).timeout_s(600), |d| crate::c19::discover("C20", one_case(d)));
     ctx.assume("counting rules of the timing report as stated in compute_timing_top_n: start points arrive at 0, Buf adds delay but no level, an asynchronous RAM read adds SramModel::access_delay(depth) and one level from its latest address bit, end points are FF D pins, output/inout bits and RAM write pins");
     ctx.assume("'critical-path depth' is read as: levels of the longest path to the reported (latest-arriving) end point; whether a deeper but faster end point exists is recorded as a class, not asserted");
